@@ -24,6 +24,8 @@ from .values import (
     BoundMethod,
     ClassRef,
     Closure,
+    DictObj,
+    SetObj,
     IntSV,
     ListObj,
     Native,
@@ -36,6 +38,11 @@ from .values import (
     Unsupported,
     ValSV,
 )
+
+
+def modname_of(relpath):
+    m = relpath[:-3].replace("/", ".")
+    return m[: -len(".__init__")] if m.endswith(".__init__") else m
 
 
 class Result:
@@ -378,10 +385,28 @@ def _h_contains(it, args, kw):
 def _h_same(it, args, kw):
     """identity/equality of terms (not py_eq)"""
     a, b = args
+    if isinstance(a, (SetObj, DictObj)) and type(a) is type(b):
+        # sets / dicts are compared by their insertion histories (equal histories: equal contents, and they stay so)
+        def hist(v):
+            if v.symbolic:
+                return v.log
+            if v.hist is None:
+                raise Unsupported("set/dict with an unknown history in a contract")
+            return it.seq_term(ListObj(list(v.hist)))
+        return BoolSV(hist(a) == hist(b))
     if isinstance(a, (ListObj,)) or isinstance(b, ListObj) or (isinstance(a, SV) and a.kind == "seq"):
         ta, tb = natives.seq_pair(it, a, b)
         return BoolSV(ta == tb)
     return BoolSV(it.to_val(a) == it.to_val(b))
+
+
+@_helper("field")
+def _h_field(it, args, kw):
+    """field(o, name, default): o.name when o is a record, else the default (total: usable under a false premise)"""
+    o, name, default = args
+    if isinstance(o, Obj) and name in o.fields:
+        return o.fields[name]
+    return default
 
 
 def make_param(it, ctx, name, kind):
@@ -466,6 +491,26 @@ def havoc_cell(it, ctx, env_or_obj, name, kind, get, set_):
     elif kind.startswith("cell:choice:"):
         opts = eval(kind[len("cell:choice:"):], {})
         cur.items[0] = opts[ctx.choose(len(opts), f"{name}_choice")]
+    elif kind.startswith("obj:"):
+        # obj:<module>:<Class>(field=kind,...): an instance of a repo class whose fields are arbitrary (type invariant)
+        head, rest = kind[4:].split("(", 1)
+        mod, cname = head.split(":")
+        cls = it.module_get(mod, cname)
+        o = Obj(cls)
+        for part in rest.rstrip(")").split(","):
+            fname, fkind = part.strip().split("=")
+            v = ctx.fresh(f"{name}_{fname}", "int" if fkind == "nat" else fkind)
+            if fkind == "nat":
+                ctx.assume(v.t >= 0)
+            o.fields[fname] = v
+        set_(name, o)
+    elif kind in ("setlog", "dictlog"):
+        # a set / dict known by its insertion history (its content is a function of that history); in place:
+        # bound methods of the object (s.add handed out as a handler) must keep seeing it
+        if isinstance(cur, (SetObj, DictObj)):
+            cur.log, cur.symbolic, cur.hist = ctx.fresh(name, "seq").t, True, None
+        else:
+            set_(name, (SetObj if kind == "setlog" else DictObj)(None, log=ctx.fresh(name, "seq").t))
     elif kind == "optdisp":
         # nothing yet, or the disposable of an earlier (previous) inner subscription
         if ctx.choose(2, f"{name}_is_none") == 0:
@@ -505,7 +550,7 @@ class OpHarness:
         #: contracts of other operators: inside this operator they are used by contract, not by body
         self.callees = {}
         for x in callees:
-            self.callees.setdefault((x.file[:-3].replace("/", "."), x.func), x)
+            self.callees.setdefault((modname_of(x.file), x.func), x)
         self.used_callees = set()
         #: K7 (C43): also emit lock-set obligations for every downstream call
         self.lockset = False
@@ -640,7 +685,7 @@ class OpHarness:
             it.list_hook = self.on_cell_write
         it.loop_contracts = dict(c.loops)
         it.on_loop = self.on_loop
-        modname = c.file[:-3].replace("/", ".")
+        modname = modname_of(c.file)
         env = Env(None, self.loader.load(modname))
         params = {}
         for n, k in c.params.items():
@@ -848,6 +893,12 @@ class OpHarness:
                     if env.lookup_env(k) is None:
                         inv_env.vars.setdefault(k, v)
                 ee = ee.parent
+        # a cell may be called `s` or `c` in the real code: every cell root is also visible as cell_<name>
+        for n in self.c.cells:
+            root = n.split(".")[0].split("[")[0]
+            e = env.lookup_env(root)
+            if e is not None:
+                inv_env.vars["cell_" + root] = e.vars[root]
         inv_env.vars["s"] = s
         inv_env.vars["c"] = tuple(cs for (cs, cc, st, out) in self.w.cspecs)
         inv_env.vars.update(self.pvals)
@@ -1030,17 +1081,17 @@ class OpHarness:
         self.havoc_spec_fields(it, ctx, s, c, "s_")
         # callee stages: their spec state is arbitrary too; a stage that already terminated downstream is stopped
         for idx, (cs, cc, st, out) in enumerate(self.w.cspecs):
-            self.havoc_spec_fields(it, ctx, cs, cc, f"c{idx}_")
+            self.havoc_spec_fields(it, ctx, cs, cc, f"c{idx}_", override=(getattr(c, "stage_args", None) or {}).get(idx))
             d = self.spec_done(it, ctx, cs)
             st["stopped"] = d if isinstance(d, bool) else ctx.branch(d, f"stage{idx} already terminated")
             st["in_stopped"] = False
 
-    def havoc_spec_fields(self, it, ctx, s, c, prefix):
+    def havoc_spec_fields(self, it, ctx, s, c, prefix, override=None):
         # spec state: havoc every non-parameter field by the kind of its initial value
         for n, v in list(s.fields.items()):
             if n in c.params or n in c.sources:
                 continue
-            kind = (c.spec_args or {}).get(n)
+            kind = (override or {}).get(n) or (c.spec_args or {}).get(n)
             if kind is None:
                 if isinstance(v, bool) or (isinstance(v, SV) and v.kind == "bool"):
                     kind = "bool"
@@ -1050,6 +1101,10 @@ class OpHarness:
                     kind = "seq"
                 elif v is None or (isinstance(v, SV) and v.kind == "val"):
                     kind = "val"
+                elif isinstance(v, SetObj):
+                    kind = "setlog"
+                elif isinstance(v, DictObj):
+                    kind = "dictlog"
                 else:
                     raise Unsupported(f"spec field {n} kind")
             havoc_cell(it, ctx, None, prefix + n, kind, lambda _n, _k=n: s.fields[_k], lambda _n, val, _k=n: s.fields.__setitem__(_k, val))
@@ -1174,7 +1229,7 @@ class OpHarness:
         ctx.spec += 1
         k = self.eval_src(it, F["id"], self.inv_env(it, cells_env, s)) if F.get("id") else None
         ctx.spec -= 1
-        modname = c.file[:-3].replace("/", ".")
+        modname = modname_of(c.file)
 
         def own_env(hd, depth=0):
             """the operator's own closure scope behind a handler (looking through synchronized(...) wrappers)"""
